@@ -96,3 +96,9 @@ Theorem C19_zip_signature_is_the_source :
   end = true.
 Proof. vm_compute. reflexivity. Qed.
 Print Assumptions C19_zip_signature_is_the_source.
+
+(* regenerated obligation: in the CURRENT source Docx / Xlsx / Pptx / Jar are single calls of zipContains with the
+   marker and the OOXML flag the model uses *)
+Theorem C19_zip_calls_are_the_source : call_shapes_agree_for ["Docx"; "Xlsx"; "Pptx"; "Jar"]%string = true.
+Proof. vm_compute. reflexivity. Qed.
+Print Assumptions C19_zip_calls_are_the_source.
